@@ -22,7 +22,10 @@ RULE = ("case = generated small/medium enum (gapless or with holes, all reprs) x
         "is compiled twice in one probe (as drawn, and merged into a single attribute - the splitting metamorphic "
         "relation) and every enabled item is then run against the model (C01-C08 scripts). non-trivial = configuration "
         "(feature set with modes and parameters) not among the 29 of the pinned suite; distinct by (features, modes, "
-        "parameters, attribute split, shape, repr). 2-way coverage of (feature on/off or mode) x (feature on/off or "
+        "parameters, attribute split, shape, repr). In addition a small-scope enumeration compiles EVERY feature subset "
+        "of size <= 2 (quick) / <= 3 (thorough) x every mode of the mode features present on 8 fixed enum shapes "
+        "(batched check-only compiles, failing batches bisected) - conjunction defects that need a feature to be on "
+        "while its usual companions are off. 2-way coverage of (feature on/off or mode) x (feature on/off or "
         "mode) x shape is measured and reported")
 KF_ITER_MATCH = "KF1"
 
@@ -57,9 +60,44 @@ def cases(draw, tier="quick"):
             "seed": draw(st.integers(0, 2 ** 31))}
 
 
+SCOPE_SHAPES = [
+    ("gapless_from_0", "u8", [0, 1, 2]),
+    ("gapless_negative_start", "i8", [-2, -1, 0, 1]),
+    ("holes_mixed_sign", "i16", [-5, -4, 3, 9, 10]),
+    ("holes_at_type_limits", "i8", [-128, -127, 5, 127]),
+    ("single_variant", "u32", [7]),
+    ("gapless_at_type_max", "u8", [253, 254, 255]),
+    ("holes_wide_repr", "u64", [0, 1, 2 ** 40]),
+    ("holes_9_values_usize", "usize", [0, 1, 2, 3, 4, 5, 6, 7, 9]),
+]
+
+
+def scope_configs(max_size, gapless):
+    """Every feature subset of size <= max_size (range pulls in iter) x every mode of the mode features present."""
+    str_modes = [None, "match", "table"]
+    out = []
+    for k in range(1, max_size + 1):
+        for sub in itertools.combinations(E.ALL_FEATURES, k):
+            fs = list(sub)
+            if "range" in fs and "iter" not in fs:
+                fs.append("iter")
+            doms = []
+            for f in fs:
+                if f == "iter":
+                    md = [None, "next_and_back", "table"] + (["range"] if gapless else []) + ([] if "range" in fs else ["table_inline"])
+                    doms.append(md)
+                elif f in E.MODE_FEATURES:
+                    doms.append(str_modes)
+                else:
+                    doms.append([None])
+            for combo in itertools.product(*doms):
+                out.append(S.simple_config(fs, {f: m_ for f, m_ in zip(fs, combo)}))
+    return out
+
+
 def fixed_cases(tier):
     # the all-features configuration on every repr, gapless and with holes (cheap, deterministic)
-    out = []
+    out = [{"small_scope": 3 if tier == "thorough" else 2}]
     for r in M.REPRS:
         lo, hi = M.repr_domain(r)
         for shape in ("gapless", "holes"):
@@ -117,7 +155,58 @@ def _total_pairs():
 COVER_TOTALS = {"pairs_x_shape": _total_pairs()}   # upper bound: includes the few illegal pairs (range x iter off / table_inline, range mode x holes)
 
 
+def _batch_src(items):
+    parts = [E.HEADER]
+    for i, item in items:
+        parts.append("pub mod m%d {\n    use ::enum_tools::EnumTools;\n%s\n}" % (i, item))
+    return "\n".join(parts) + "\n"
+
+
+def _failing(items):
+    """Indices of items that do not compile (batched check-only compile, bisecting failing batches)."""
+    if not items:
+        return []
+    c = build.rustc(_batch_src(items), mode="check", crate_name="scope")
+    if c.ok:
+        return []
+    if len(items) == 1:
+        return [(items[0][0], J.short_err(c.stderr, 600))]
+    mid = len(items) // 2
+    return _failing(items[:mid]) + _failing(items[mid:])
+
+
+def run_small_scope(case):
+    import concurrent.futures
+    out = J.Outcome()
+    total = 0
+    jobs = []
+    for name, r, vals in SCOPE_SHAPES:
+        spec = {"repr": r, "vis": "pub", "ident": "E", "enum_attrs": [],
+                "variants": [{"ident": "V%d" % i, "disc": str(v)} for i, v in enumerate(vals)]}
+        m = M.RefEnum(spec)
+        cfgs = scope_configs(case["small_scope"], m.gapless)
+        items = [(i, E.enum_item_text(spec, c)) for i, c in enumerate(cfgs)]
+        total += len(items)
+        out.count("small_scope_configs_" + name, len(items))
+        for b in range(0, len(items), 400):
+            jobs.append((name, spec, cfgs, items[b:b + 400]))
+    with concurrent.futures.ThreadPoolExecutor(max_workers=16) as ex:
+        results = list(ex.map(lambda j: (j, _failing(j[3])), jobs))
+    for (name, spec, cfgs, _items), bad in results:
+        for i, err in bad[:3]:
+            out.violate("a documented combination does not compile (small-scope enumeration)", shape=name,
+                        config=J.cfg_text(cfgs[i]), stderr=err,
+                        replay_case={"spec": spec, "cfg": cfgs[i], "sorted": None, "match_excluded": True, "seed": 0})
+    out.count("small_scope_configs", total)
+    out.nontrivial = True
+    out.fingerprint = J.fp("small_scope", case["small_scope"])
+    out.sample = {"small_scope_max_features": case["small_scope"], "shapes": [n for n, _r, _v in SCOPE_SHAPES], "configs": total}
+    return out
+
+
 def run_case(case):
+    if "small_scope" in case:
+        return run_small_scope(case)
     out = J.Outcome()
     spec = case["spec"]
     cfg = copy.deepcopy(case["cfg"])
